@@ -442,6 +442,11 @@ fn check_client_stream(rec: &mut Rec, sim: &Sim, i: usize, prop: &str) {
                 }
                 if *code == 500 && !c.recv_err_injected {
                     rec.oracle_fail("C07", &format!("client {} received a 500 although no read on its connection ever failed", i), &sim.w.log);
+                    if prop == "C08" && !c.misbehaved && !p.sent_garbage {
+                        // C08: a well-behaved client is answered with what the application supplied — not with an error
+                        // response nobody supplied (the poll in effect failed on a healthy connection)
+                        rec.oracle_fail("C08", &format!("well-behaved client {} received a 500 nobody supplied", i), &sim.w.log);
+                    }
                 }
             }
             200 => {
